@@ -3,7 +3,7 @@ CONSTANTS
   MaxN = 4
   MaxWant = 3
   MaxRetries = 2
-  KindSet = {"ok1", "ok2", "s403", "s503", "connerr", "s500"}
+  KindSet = {"ok1", "ok2", "s403", "s503", "connerr", "okcut", "s500"}
   MaxHist = 0
 VIEW view
 INVARIANTS TypeOK Accounting ActiveIsPending
